@@ -162,23 +162,22 @@ def subcases(pkg):
                         "key": "%s|%s|fault|%s" % (shape, m["result"]["type"], f),
                         "cmd": json.dumps(dict(info, fault=f))})
         if pkg.get("redirect"):
-            firsts, seconds, rbodies = pkg["redirect"]
-            for first in firsts:
-                for pol in ("follow", "last", "refuse"):
-                    for second in (seconds if pol == "follow" else [0]):
-                        for b in (rbodies if pol == "follow" else ["empty"]):
-                            cid = "%s.%s.rd.%s.%d.%d.%s" % (pkg["id"], m["name"], pol, first, second, b)
-                            if pol == "follow":
-                                what, nreq = "(status %d) (body %s)" % (second, b), "2"
-                            elif pol == "last":
-                                what, nreq = "(status %d) (body malformed)" % first, "1"
-                            else:
-                                what, nreq = "(resperr %d)" % first, "1"
-                            out.append({"id": cid, "pkg": pkg["id"], "okey": "%s/redir/%s-%d-%d-%s/" % (m["name"], pol, first, second, b), "shape": shape,
-                                        "status": second if pol == "follow" else first, "body": b, "fault": None, "redir": pol, "nreq": nreq,
-                                        "sexp": "(case %s rest-call (shape %s) %s)" % (cid, shape, what),
-                                        "key": "%s|%s|redir|%s|%d|%d|%s" % (shape, m["result"]["type"], pol, first, second, b),
-                                        "cmd": json.dumps(dict(info, redirect=[pol, first, second, b]))})
+            for leg in restgen.redirect_legs(pkg["redirect"]):
+                pol, first, second, b, loc = leg.split(":")
+                first, second = int(first), int(second)
+                cid = "%s.%s.rd.%s" % (pkg["id"], m["name"], leg.replace(":", "."))
+                if pol == "follow":
+                    what, nreq, to = "(status %d) (body %s)" % (second, b), "2", restgen.REDIRECT_LOCS[loc]
+                elif pol == "last":
+                    what, nreq, to = "(status %d) (body malformed)" % first, "1", "-"
+                else:
+                    what, nreq, to = "(resperr %d)" % first, "1", "-"
+                out.append({"id": cid, "pkg": pkg["id"], "okey": "%s/redir/%s/" % (m["name"], leg), "shape": shape,
+                            "status": second if pol == "follow" else first, "body": b, "fault": None, "redir": pol, "nreq": nreq, "to": to,
+                            "loc": loc,
+                            "sexp": "(case %s rest-call (shape %s) %s)" % (cid, shape, what),
+                            "key": "%s|%s|redir|%s|%d|%d|%s|%s" % (shape, m["result"]["type"], pol, first, second, b, loc),
+                            "cmd": json.dumps(dict(info, redirect=[pol, first, second, b], location=loc))})
         for rn, scripts in sorted(pkg.get("retry", {}).items()):
             for sp in scripts:
                 cid = "%s.%s.rt.%d.%s" % (pkg["id"], m["name"], rn, sp.replace(",", "-"))
@@ -253,9 +252,9 @@ def run_pkgs(ctx, pkgs):
             # the scripted fault error must come back as the very object the transport produced (inside the *url.Error of client.Do)
             if c["fault"] and im.get("err") == "transport:same":
                 im["err"] = "transport:" + c["fault"].split("-")[0]
-            nreq = im.pop("nreq", None)
+            nreq, to = im.pop("nreq", None), im.pop("to", None)
             if c.get("redir"):
-                im["nreq"] = nreq
+                im["nreq"], im["to"] = nreq, to
             if c["fault"] == "refused-real" and "err" not in im and gen == "ok":
                 skipped.append(c["id"])      # no loopback in this sandbox: leg skipped (stated in the evidence)
                 continue
@@ -278,8 +277,9 @@ def run_pkgs(ctx, pkgs):
                 m["spec"]["ctxwire"] = c["wire"]
             if c.get("redir"):
                 # the default policy follows the redirect: two round trips; the other two policies stop after one
-                m["model"]["nreq"] = c["nreq"]
-                m["spec"]["nreq"] = c["nreq"]
+                for side in ("model", "spec"):
+                    m[side]["nreq"] = c["nreq"]
+                    m[side]["to"] = c["to"]
     return cases, impl, model
 
 
@@ -301,6 +301,8 @@ def run(ctx, obl):
             res.hist("retry-chain", "n=%d" % c["retry"][0])
         elif c.get("redir"):
             res.hist("redirect", c["redir"])
+            if c["redir"] == "follow":
+                res.hist("redirect-location", c["loc"])
         else:
             res.hist("body", c["body"])
             s = c["status"]
